@@ -18,8 +18,9 @@
       later call of it starts from the clone; a wrapper handed to the host ([genFunctionWrapper],
       for results of [Eval(name)] and [Symbols]) starts from the root frame as it is at call time;
     - [Execute] runs phases: root statements and package variables in the root frame, then each init
-      function and [main] in a NEW frame created with the interpreter's CURRENT generation
-      ([interp.run(n, interp.frame)] -> [newFrame(cf, ..., interp.runid())]);
+      function and [main] in a new frame created with the generation of the root frame, which
+      [Execute] set when it started ([interp.run(n, interp.frame)] -> [newFrame(cf, ..., cf.runid())];
+      before the repair of the init-list defect it was the interpreter's CURRENT generation);
     - a blocking channel operation selects on the frame's cancellation channel and ends the
       activation ([return nil]) when it is closed, if the operation was generated cancellable.
 
@@ -130,12 +131,12 @@ Definition spawn (st : state) (a : act) : state :=
 Definition next (a : act) : act := mkAct (afr a) (afn a) (S (apc a)).
 Definition goto (a : act) (pc : nat) : act := mkAct (afr a) (afn a) pc.
 
-(** Interpreter.run(n, cf): cf == nil -> the root frame; else newFrame(cf, ..., interp.runid());
-    in both cases f.done = interp.done. *)
+(** Interpreter.run(n, cf): cf == nil -> the root frame; else newFrame(cf, ..., cf.runid()) with
+    cf = the root frame; in both cases f.done = interp.done. *)
 Definition start_phase (st : state) (t : nat) (ph : phase) (rest : list phase) : state :=
   match ph with
   | PRoot f => set_thread (set_rootdone st (idone st)) t (mkThread [mkAct FRoot f 0] false rest)
-  | PFun f => set_thread st t (mkThread [mkAct (FOwn (mkFrame (iid st) (idone st))) f 0] false rest)
+  | PFun f => set_thread st t (mkThread [mkAct (FOwn (mkFrame (rootid st) (idone st))) f 0] false rest)
   end.
 
 (** the operation in flight is executed (the gate was passed before) *)
@@ -231,7 +232,8 @@ Definition thread_of (st : state) (u : nat) : thread :=
 Definition exited (st : state) (u : nat) : bool :=
   match stack (thread_of st u), phases (thread_of st u) with [], [] => true | _, _ => false end.
 
-(** side condition of C09_gate_partial: no init function / main is waiting to be started *)
+(** no init function / main is waiting to be started (the side condition C09_gate_partial needed
+    before the repair of the init-list defect; kept to describe the regression witness) *)
 Definition no_pending (st : state) : bool :=
   forallb (fun th => match phases th with [] => true | _ => false end) (threads st).
 
@@ -254,8 +256,8 @@ Definition stuck (st : state) (u : nat) : bool :=
 Definition measure (st : state) (u : nat) : nat :=
   let th := thread_of st u in
   match stack th with
-  | [] => 0
-  | _ => List.length (stack th) + (if armed th then 2 else 0)
+  | [] => 2 * List.length (phases th)
+  | _ => List.length (stack th) + 2 * List.length (phases th) + (if armed th then 2 else 0)
   end.
 
 Definition occ (u : nat) (sched : list (nat * bool)) : nat :=
@@ -395,7 +397,7 @@ Definition C09_contract : Prop :=
     let s2 := steps F (do_action F s1 AStop) sched in
     evs u (log s2) <= evs u (log s1) + 1
     /\ (forall th, nth_error (threads s1) u = Some th -> in_host_call F s1 u = false ->
-          List.length (stack th) + 2 <= occ u sched -> exited s2 u = true).
+          List.length (stack th) + 2 * List.length (phases th) + 2 <= occ u sched -> exited s2 u = true).
 
 (** "from then on": also when the host goes on using the interpreter *)
 Definition C09_contract_session : Prop :=
